@@ -3,39 +3,40 @@
 # Same confirmation as confirm_seed.sh; the demo destination is read from "DEST:" in X.notes.md.
 set -u
 ID="$1"
-OUT=/tmp/wt/${ID}r3-out
+RS=${RS:-r3}
+OUT=/tmp/wt/${ID}${RS}-out
 export GOFLAGS=-mod=mod GOPROXY=off
 for L in A B C; do
   [ -f "$OUT/$L.patch.diff" ] || continue
   DEST=$(grep -m1 -i '^DEST:' "$OUT/$L.notes.md" | sed 's/^DEST:[[:space:]]*//I; s#/*$##; s/`//g' | awk '{print $1}')
-  [ -n "$DEST" ] || { echo "$ID-r3$L: no DEST line"; continue; }
-  WT=/tmp/cs/${ID}r3$L
+  [ -n "$DEST" ] || { echo "$ID-${RS}$L: no DEST line"; continue; }
+  WT=/tmp/cs/${ID}${RS}$L
   rm -rf "$WT"; mkdir -p /tmp/cs
   git -C /repo worktree add -q --detach "$WT" HEAD || continue
   ( cd "$WT"
-    cp "$OUT/$L.demo/"*_test.go "$DEST/" 2>/dev/null || { echo "$ID-r3$L: cannot copy demo to $DEST"; exit 3; }
+    cp "$OUT/$L.demo/"*_test.go "$DEST/" 2>/dev/null || { echo "$ID-${RS}$L: cannot copy demo to $DEST"; exit 3; }
     TESTS=$(grep -h -o '^func Test[A-Za-z0-9_]*' "$OUT/$L.demo/"*_test.go | sed 's/func //' | paste -sd'|')
-    go test -vet=off -count=1 -run "^($TESTS)\$" "./$DEST/" >/tmp/cs/${ID}r3$L.base.log 2>&1; rc_base=$?
-    if ! git apply "$OUT/$L.patch.diff"; then echo "$ID-r3$L: PATCH DOES NOT APPLY"; exit 2; fi
-    go test -vet=off -count=1 -run "^($TESTS)\$" "./$DEST/" >/tmp/cs/${ID}r3$L.mut.log 2>&1; rc_mut=$?
+    go test -vet=off -count=1 -run "^($TESTS)\$" "./$DEST/" >/tmp/cs/${ID}${RS}$L.base.log 2>&1; rc_base=$?
+    if ! git apply "$OUT/$L.patch.diff"; then echo "$ID-${RS}$L: PATCH DOES NOT APPLY"; exit 2; fi
+    go test -vet=off -count=1 -run "^($TESTS)\$" "./$DEST/" >/tmp/cs/${ID}${RS}$L.mut.log 2>&1; rc_mut=$?
     for f in "$OUT/$L.demo/"*_test.go; do rm -f "$DEST/$(basename $f)"; done
     go build ./... >/dev/null 2>&1; rc_build=$?
-    go test -vet=off -count=1 ./... >/tmp/cs/${ID}r3$L.suite.log 2>&1; rc_suite=$?
-    echo "$ID-r3$L: demo unchanged rc=$rc_base, with change rc=$rc_mut, build rc=$rc_build, suite rc=$rc_suite"
+    go test -vet=off -count=1 ./... >/tmp/cs/${ID}${RS}$L.suite.log 2>&1; rc_suite=$?
+    echo "$ID-${RS}$L: demo unchanged rc=$rc_base, with change rc=$rc_mut, build rc=$rc_build, suite rc=$rc_suite"
     if [ $rc_base -eq 0 ] && [ $rc_mut -ne 0 ] && [ $rc_build -eq 0 ] && [ $rc_suite -eq 0 ]; then
-      S=/verif/seeded/${ID}r3-$L; rm -rf "$S"; mkdir -p "$S/demo"
+      S=/verif/seeded/${ID}${RS}-$L; rm -rf "$S"; mkdir -p "$S/demo"
       cp "$OUT/$L.patch.diff" "$S/patch.diff"; cp "$OUT/$L.demo/"* "$S/demo/"; cp "$OUT/$L.notes.md" "$S/notes.md"
-      python3 - "$ID" "$L" "$DEST" "$TESTS" "$(git -C /repo rev-parse --short HEAD)" <<'PY'
+      python3 - "$ID" "$L" "$DEST" "$TESTS" "$(git -C /repo rev-parse --short HEAD)" "$RS" <<'PY'
 import json,sys
-pid,l,dest,tests,head=sys.argv[1:6]
-meta={"property":pid,"variant":"r3-"+l,"round":3,"demo_dest":dest,"demo_tests":tests.split('|'),"confirmed_at_repo_head":head,
- "what_was_run":[f"git worktree add --detach /tmp/cs/{pid}r3{l} HEAD",f"cp demo/*_test.go {dest}/ && go test -vet=off -count=1 -run '^({tests})$' ./{dest}/ -> PASS on the unchanged tree","git apply patch.diff; same go test -> FAIL","demo removed; go build ./... && go test -vet=off -count=1 ./... -> PASS with the change"],
+pid,l,dest,tests,head,rs=sys.argv[1:7]
+meta={"property":pid,"variant":rs+"-"+l,"round":int(rs[1:]),"demo_dest":dest,"demo_tests":tests.split('|'),"confirmed_at_repo_head":head,
+ "what_was_run":[f"git worktree add --detach /tmp/cs/{pid}{rs}{l} HEAD",f"cp demo/*_test.go {dest}/ && go test -vet=off -count=1 -run '^({tests})$' ./{dest}/ -> PASS on the unchanged tree","git apply patch.diff; same go test -> FAIL","demo removed; go build ./... && go test -vet=off -count=1 ./... -> PASS with the change"],
  "needs_to_manifest":"see notes.md (written by the independent sub-agent that authored the change)","detected_by":None}
-json.dump(meta,open(f'/verif/seeded/{pid}r3-{l}/meta.json','w'),indent=1)
+json.dump(meta,open(f'/verif/seeded/{pid}{rs}-{l}/meta.json','w'),indent=1)
 PY
-      echo "$ID-r3$L: CONFIRMED"
+      echo "$ID-${RS}$L: CONFIRMED"
     else
-      echo "$ID-r3$L: NOT CONFIRMED"; tail -4 /tmp/cs/${ID}r3$L.base.log; tail -4 /tmp/cs/${ID}r3$L.mut.log; grep -v "^ok\|no test files" /tmp/cs/${ID}r3$L.suite.log | tail -5
+      echo "$ID-${RS}$L: NOT CONFIRMED"; tail -4 /tmp/cs/${ID}${RS}$L.base.log; tail -4 /tmp/cs/${ID}${RS}$L.mut.log; grep -v "^ok\|no test files" /tmp/cs/${ID}${RS}$L.suite.log | tail -5
     fi
   )
   git -C /repo worktree remove --force "$WT" >/dev/null 2>&1; rm -rf "$WT"
